@@ -162,3 +162,56 @@ Proof.
   rewrite chunks_of_cons by assumption.
   rewrite firstn_all2 by assumption. rewrite skipn_all2 by assumption. reflexivity.
 Qed.
+
+(* ---------- flatnonzero / positions ---------- *)
+Lemma flatnonzero_from_app i (a b : list bool) :
+  flatnonzero_from i (a ++ b) = flatnonzero_from i a ++ flatnonzero_from (i + len a) b.
+Proof.
+  revert i. induction a as [|x a IH]; intros i; simpl.
+  - rewrite len_nil. f_equal. lia.
+  - rewrite IH, len_cons, <- app_assoc. do 3 f_equal. lia.
+Qed.
+Lemma In_flatnonzero_from i (l : list bool) p :
+  In p (flatnonzero_from i l) <-> i <= p < i + len l /\ nth (Z.to_nat (p - i)) l false = true.
+Proof.
+  revert i. induction l as [|b l IH]; intros i; simpl.
+  - rewrite len_nil. split; [tauto|lia].
+  - rewrite in_app_iff, IH, len_cons. pose proof (len_nonneg l). split.
+    + intros [Hb|Hr].
+      * destruct b; [|destruct Hb]. destruct Hb as [<-|[]]. rewrite Z.sub_diag. split; [lia|reflexivity].
+      * destruct Hr as [H1 H2]. split; [lia|].
+        replace (Z.to_nat (p - i)) with (S (Z.to_nat (p - (i + 1)))) by lia. exact H2.
+    + intros [H1 H2]. destruct (Z.eq_dec p i) as [->|Hne].
+      * left. rewrite Z.sub_diag in H2. simpl in H2. subst b. left. reflexivity.
+      * right. split; [lia|].
+        replace (Z.to_nat (p - i)) with (S (Z.to_nat (p - (i + 1)))) in H2 by lia. exact H2.
+Qed.
+Lemma In_positions v (l : list Z) p : In p (positions v l) <-> 0 <= p < len l /\ nthZ l p = v.
+Proof.
+  unfold positions, flatnonzero. rewrite In_flatnonzero_from.
+  unfold len. rewrite map_length. rewrite Z.sub_0_r. unfold nthZ.
+  split; intros [H1 H2]; (split; [lia|]).
+  - rewrite (nth_indep _ false (v =? 0)) in H2 by (rewrite map_length; lia).
+    rewrite map_nth in H2. apply Z.eqb_eq in H2. symmetry. exact H2.
+  - rewrite (nth_indep _ false (v =? 0)) by (rewrite map_length; lia).
+    rewrite map_nth. apply Z.eqb_eq. symmetry. exact H2.
+Qed.
+Lemma positions_snoc_hit v (l : list Z) : positions v (l ++ [v]) = positions v l ++ [len l].
+Proof.
+  unfold positions, flatnonzero. rewrite map_app, flatnonzero_from_app. simpl.
+  rewrite Z.eqb_refl. simpl. f_equal. unfold len. rewrite map_length. reflexivity.
+Qed.
+Lemma last_nth_firstn (l : list Z) (p : nat) d : (p < length l)%nat -> last (firstn (S p) l) d = nth p l d.
+Proof.
+  revert l. induction p as [|p IH]; intros l Hp; destruct l as [|x l]; simpl in Hp; try lia.
+  - reflexivity.
+  - change (firstn (S (S p)) (x :: l)) with (x :: firstn (S p) l).
+    assert (firstn (S p) l <> []) by (destruct l; [simpl in Hp; lia|discriminate]).
+    destruct (firstn (S p) l) eqn:E; [congruence|]. rewrite <- E. simpl nth. rewrite <- IH by lia.
+    rewrite E. reflexivity.
+Qed.
+Lemma last_app_nonempty {A} (a b : list A) d : b <> [] -> last (a ++ b) d = last b d.
+Proof.
+  intros Hb. induction a as [|x a IH]; [reflexivity|].
+  simpl. destruct (a ++ b) eqn:E; [destruct a; [simpl in E; congruence|discriminate]|exact IH].
+Qed.
